@@ -2339,6 +2339,13 @@ def mon_C16(tr, st):
             rp = tr.reply(op)
             if op.get("faulted"):
                 continue
+            if rp and rp["outcome"] == "ok" and rp["last"] == "Z" and not arr and \
+                    any("could not get connection from the pool" in m for m in rp["pooler_err"]):
+                # the client DID proceed past the gate after RESUME and was then refused at checkout (e.g. another held
+                # client of the same user took the only connection of a pool that a RELOAD in between had shrunk):
+                # that is capacity (C04's subject), not a client left blocked by the pause
+                st["C16:released_then_refused_at_checkout"] += 1
+                continue
             if not rp or rp["outcome"] != "ok" or rp["last"] != "Z" or not arr:
                 out.append({"kind": "held_statement_not_served_after_resume", "op": op["tag"], "sql": op["sql"], "pause": p["scope"], "reload_in_between": p.get("reload"),
                             "outcome": rp and rp["outcome"], "reached_a_server": bool(arr)})
